@@ -494,6 +494,7 @@ def check_project(project: dict, pos: dict, res: dict, stats: Counter | None = N
     for k, s in possible.items():
         for e in s:
             members_pos.setdefault(e, []).append(k)
+    list_pos = {d: i for i, d in enumerate(offs)}     # position in the emitted lists (routine by routine)
     rets: dict[int, set] = {}
     for k, ci in sorted(definite.items()):
         x = ex.inst[ci]
@@ -542,8 +543,14 @@ def check_project(project: dict, pos: dict, res: dict, stats: Counter | None = N
             bad.append(("return_addr_not_after_expansion", f"op {k} of macro {x['macro']}: return address {r}, op {hi} belongs to the same expansion"))
         else:
             after = [d for d in offs if d > hi and (d in dmap or (cands[d] and X not in possible[d]))]
+            # … and in the order the ops are EMITTED (the op executed / listed next; op numbers need not follow that order):
+            # the first op listed behind the last op of the expansion that cannot belong to it
+            last_pos = max(list_pos[d] for d in members_def[X])
+            behind = [d for d in offs[last_pos + 1:] if d in dmap or (cands[d] and X not in possible[d])]
             if after and r > min(after):
                 bad.append(("return_addr_after_following_op", f"op {k} of macro {x['macro']}: return address {r}, the first op after the expansion is {min(after)}"))
+            elif behind and r > behind[0]:
+                bad.append(("return_addr_after_following_op", f"op {k} of macro {x['macro']}: return address {r}, but the op emitted right behind the expansion (after op {offs[last_pos]}) is op {behind[0]}: the return address skips it"))
             else:
                 st["return_addr_checked"] += 1
     for X, rs in rets.items():
